@@ -188,6 +188,10 @@ def _configs(tier, salts):
         if salt == 0 or (tier == "thorough" and salt == 1):
             for cfg, plan in cfgs.tr_increase_cfgs(salt, restarts=("none", "hard_new", "soft")):
                 out.append((dict(cfg, tag_restart="trinc"), plan))
+        # declared linear-algebra faults (the three linear-algebra exits and the restarts that recover from them)
+        if salt == 0 or (tier == "thorough" and salt == 1):
+            for cfg, plan in cfgs.linalg_fault_cfgs(salt, tier):
+                out.append((dict(cfg, tag_restart="la"), plan))
         # the broad option bank over many budgets
         if salt == 0 or (tier == "thorough" and salt == 1):
             for name, cfg in cfgs.broad_cfgs(salt=salt, budgets=tuple(range(2, 62, 3 if tier == "quick" else 1)), reg_budgets=(3, 8),
